@@ -1117,3 +1117,13 @@ class Rotate(om.ExplicitComponent):
                 partials["mesh", "in_mesh"][nn5:nn6] = -self.ref_axis_pos * d_dq_flat1
                 nn7 = nn6 + del_n
                 partials["mesh", "in_mesh"][nn6:nn7] = -self.ref_axis_pos * d_dq_flat2
+
+        else:
+            # Without the x-rotation only the direct contribution of the reference axis
+            # (leading and trailing edge) to the other chordwise rows remains.
+            del_n = nn - 9 * ny
+            nn2 = nn + del_n
+            nn3 = nn2 + del_n
+            d_qch_od = np.tile(d_qch.flatten(), nx - 1)
+            partials["mesh", "in_mesh"][nn:nn2] = (1 - self.ref_axis_pos) * d_qch_od
+            partials["mesh", "in_mesh"][nn2:nn3] = self.ref_axis_pos * d_qch_od
